@@ -1084,6 +1084,8 @@ impl<Body> Response<Body> {
 //@end
 //@extract id=ExpectString file=crux_http/src/expect.rs item="struct ExpectString"
 //@end
+// hand-declared (type only): the real field is PhantomData<fn() -> T>, a zero-sized marker Verus has no type for
+pub struct ExpectJson<T> { phantom: core::marker::PhantomData<T> }
 impl ExpectBytes {
 //@extract id=ExpectBytes::decode file=crux_http/src/expect.rs within="impl ResponseExpectation for ExpectBytes" item="fn decode" props=C15
 //@expect fn decode(&self, resp: crate::Response<Vec<u8>>) -> Result<Response<Vec<u8>>>
@@ -1100,6 +1102,18 @@ impl ExpectString {
         ensures
             r matches Ok(x) ==> resp.body_string_s() matches Ok(s) && x.body == Some(s) && x.status == resp.status && x.headers == resp.headers && x.version == resp.version, // [C15/ExpectString::decode/a-success-carries-the-decoded-string-and-the-same-status-headers-version]
             r matches Err(e) ==> resp.body_string_s() == Err::<String, HttpError>(e), // [C15/ExpectString::decode/a-body-that-does-not-decode-is-that-error-value]
+//@entry
+        let mut resp = resp;
+//@end
+}
+impl<T> ExpectJson<T> {
+//@extract id=ExpectJson::decode file=crux_http/src/expect.rs within="impl<T> ResponseExpectation for ExpectJson<T>" item="fn decode" props=C15
+//@expect fn decode(&self, mut resp: crate::Response<Vec<u8>>) -> Result<Response<T>>
+//@sig fn decode(&self, resp: Response<Vec<u8>>) -> (r: Result<Response<T>>)
+//@contract
+        ensures
+            r matches Ok(x) ==> resp.body_json_s::<T>() matches Ok(s) && x.body == Some(s) && x.status == resp.status && x.headers == resp.headers && x.version == resp.version, // [C15/ExpectJson::decode/a-success-carries-the-deserialized-value-and-the-same-status-headers-version]
+            r matches Err(e) ==> resp.body_json_s::<T>() == Err::<T, HttpError>(e), // [C15/ExpectJson::decode/a-body-that-does-not-deserialize-is-that-error-value]
 //@entry
         let mut resp = resp;
 //@end
